@@ -103,6 +103,7 @@ type Gen struct {
 	lemmasUsed map[string]bool
 	declared map[string]bool
 	sinces   [][2]string
+	memLocals map[string]bool
 	localRefs map[string]string // ref term of a non-escaping local alloc (and its sub-objects) -> component prefix
 	ghostTypes map[string]types.Type
 	localTypes map[string]types.Type // $local:<name> -> Go type
@@ -397,12 +398,18 @@ func (g *Gen) ghostTerm(s *State, name string) string {
 	if t, ok := s.ghost[name]; ok {
 		return t
 	}
+	if strings.HasPrefix(name, "$allok:") {
+		return "true"
+	}
 	switch g.ghostSort(name) {
 	case "Bool":
 		return "false"
 	}
 	if name == "$brk" {
 		return "brk0"
+	}
+	if strings.HasPrefix(name, "$allok:") {
+		return "true"
 	}
 	if srt := g.ghostSorts[name]; srt != "" && srt != "Int" && srt != "Bool" {
 		// an arbitrary but fixed default value of that sort
@@ -424,7 +431,7 @@ func (g *Gen) ghostSort(name string) string {
 		return s
 	}
 	switch {
-	case strings.HasPrefix(name, "$called:"), strings.HasPrefix(name, "$ok:"), strings.HasPrefix(name, "$defer:"), strings.HasPrefix(name, "$stored:"):
+	case strings.HasPrefix(name, "$allok:"), strings.HasPrefix(name, "$called:"), strings.HasPrefix(name, "$ok:"), strings.HasPrefix(name, "$defer:"), strings.HasPrefix(name, "$stored:"):
 		g.ghostSorts[name] = "Bool"
 		return "Bool"
 	}
